@@ -137,6 +137,8 @@ enum Case {
     /// quaternions, nearly orthonormal / nearly singular matrices, nearly parallel vectors - the other side of every
     /// `is_normalized` / epsilon comparison
     NearStructured { combo: usize, di: usize },
+    /// integer table: the first argument uniformly edge value li1, every other one li2
+    IntProduct { li1: usize, li2: usize },
     /// every float element drawn independently from the swarm mix
     Sample { k: usize },
 }
@@ -153,6 +155,22 @@ fn cases_of(op: &OpDesc, samples: usize) -> Vec<Case> {
             // every (element, lattice value) pair, the other elements ordinary
             for lane in 0..cnt.min(16) {
                 v.push(Case::ArgOneLane { pos, li, lane });
+            }
+        }
+    }
+    if fpos.is_empty() {
+        // integer (and mask) arguments: every argument uniformly each edge value (0, 1, -1 / MAX, MIN, MAX, 2), and all pairs
+        let ipos: Vec<usize> = (0..op.args.len()).filter(|i| matches!(&op.args[*i], Ty::G(_) | Ty::S(_) | Ty::Arr(..) | Ty::Tup(_))).collect();
+        for &pos in &ipos {
+            for li in 0..6 {
+                v.push(Case::ArgUniform { pos, li });
+            }
+        }
+        if ipos.len() >= 2 {
+            for li1 in 0..6 {
+                for li2 in 0..6 {
+                    v.push(Case::IntProduct { li1, li2 });
+                }
             }
         }
     }
@@ -490,6 +508,7 @@ fn make_args(op: &OpDesc, oi: usize, case: &Case, ci: usize, seed: u64) -> Vec<V
                 let li = if fpos.first() == Some(&i) { *li1 } else { *li2 };
                 gen_arg(op, i, &mut rng, Cls::Lattice(li))
             }
+            Case::IntProduct { li1, li2 } => gen_arg(op, i, &mut rng, Cls::Lattice(if i == 0 { *li1 } else { *li2 })),
             Case::Sample { .. } => gen_arg(op, i, &mut rng, Cls::Mix),
             _ => gen_arg(op, i, &mut rng, Cls::Ordinary),
         })
@@ -510,9 +529,34 @@ fn render_args(op: &OpDesc, args: &[Val]) -> String {
     v.join(", ")
 }
 
-fn call(op: &OpDesc, args: &[Val]) -> Result<Vec<Val>, util::Panic> {
-    util::catch(|| (op.f)(args))
+/// Functions of the integer vector types whose result is defined through primitive integer arithmetic: there (and only
+/// there) the primitive's own panic - overflow in builds with overflow checks, division or remainder by zero, MIN / -1,
+/// an over-wide shift - is the documented behaviour. *Where exactly* they panic is judged lane by lane against the
+/// primitive in `c18i`; this sweep only demands that nothing else panics, and that these panic with nothing else.
+pub const INT_ARITH_FNS: &[&str] = &[
+    "add", "sub", "mul", "div", "rem", "neg", "shl", "shr", "add_assign", "sub_assign", "mul_assign", "div_assign", "rem_assign",
+    "shl_assign", "shr_assign", "abs", "dot", "dot_into_vec", "cross", "perp", "perp_dot", "rotate", "length_squared", "distance_squared", "element_sum",
+    "element_product", "div_euclid", "rem_euclid", "manhattan_distance", "sum", "product", "sum_n", "product_n",
+    "wrapping_div", "saturating_div", "wrapping_rem", "checked_manhattan_distance",
+];
+
+fn is_int_arith_panic(op: &OpDesc, p: &util::Panic) -> bool {
+    let int_owner = TyId::from_name(op.owner).map(|t| !matches!(t.elem(), Elem::F32 | Elem::F64 | Elem::Bool)).unwrap_or(false)
+        || op.args.iter().chain(op.outs.iter()).any(|t| matches!(t, Ty::G(id) if !matches!(id.elem(), Elem::F32 | Elem::F64 | Elem::Bool)));
+    int_owner && INT_ARITH_FNS.contains(&op.fname) && p.msg.starts_with("attempt to ")
 }
+
+fn call(op: &OpDesc, args: &[Val]) -> Result<Vec<Val>, util::Panic> {
+    match util::catch(|| (op.f)(args)) {
+        Err(p) if is_int_arith_panic(op, &p) => {
+            INT_ARITH_PANICS.fetch_add(1, std::sync::atomic::Ordering::Relaxed);
+            Ok(Vec::new())
+        }
+        r => r,
+    }
+}
+
+pub static INT_ARITH_PANICS: std::sync::atomic::AtomicU64 = std::sync::atomic::AtomicU64::new(0);
 
 fn shrink(op: &OpDesc, args: &[Val], class: &str) -> Vec<Val> {
     let mut cur: Vec<Val> = args.to_vec();
@@ -726,6 +770,7 @@ pub fn run(seed: u64, samples: usize, workers: usize) -> Summary {
     sum.extra.insert("ops".into(), json!(OPS.len()));
     sum.extra.insert("ops_with_float_arguments".into(), json!(ops_with_float_args));
     sum.extra.insert("samples_per_op".into(), json!(samples));
+    sum.extra.insert("documented_integer_arithmetic_panics_observed".into(), json!(INT_ARITH_PANICS.load(std::sync::atomic::Ordering::Relaxed)));
     sum
 }
 
@@ -760,7 +805,7 @@ pub fn replay(j: &J) -> Option<(String, String)> {
 /// One or two plain calls of every op of a shard: the "every public function executes at least once under the
 /// machine-level monitor" pass (Miri reports uninitialised / out-of-bounds / misaligned accesses even when the
 /// result is right and nothing crashes natively). The op is announced first, so a monitor abort names it.
-pub fn run_once(seed: u64, shard: usize, of: usize, only: Option<&str>, calls: usize, related: usize) -> Summary {
+pub fn run_once(seed: u64, shard: usize, of: usize, only: Option<&str>, calls: usize, related: usize, swizzles: usize) -> Summary {
     let mut sum = Summary::default();
     sum.faults_fired.insert("HOSTILE_VALUE".into(), 0);
     sum.faults_effective.insert("HOSTILE_VALUE".into(), 0);
@@ -775,9 +820,23 @@ pub fn run_once(seed: u64, shard: usize, of: usize, only: Option<&str>, calls: u
         if op.fname == "fmt_sink" || op.fname == "fmt_spec" {
             continue; // the spec / sink grids are covered natively; the plain `fmt` ops below run the same impls once
         }
+        // swizzles are half of the integer table: `swizzles` = 0 all ops, 1 everything but swizzles, 2 swizzles only
+        let is_swizzle = (2..=4).contains(&op.fname.len()) && op.fname.chars().all(|c| "xyzw".contains(c));
+        if (swizzles == 1 && is_swizzle) || (swizzles == 2 && !is_swizzle) {
+            continue;
+        }
         // hand-rolled JSON string escape: serde_json is two orders of magnitude slower under the interpreter
-        let esc: String = op.name.chars().flat_map(|c| if c == '"' || c == '\\' { vec!['\\', c] } else { vec![c] }).collect();
-        crate::arena::announce(&format!("{{\"kind\":\"op\",\"fn\":\"{esc}\"}}"));
+        // (and no per-character allocation either: an allocation costs the interpreter thousands of steps)
+        let mut line = String::with_capacity(op.name.len() + 32);
+        line.push_str("{\"kind\":\"op\",\"fn\":\"");
+        for c in op.name.chars() {
+            if c == '"' || c == '\\' {
+                line.push('\\');
+            }
+            line.push(c);
+        }
+        line.push_str("\"}");
+        crate::arena::announce(&line);
         let nstruct = structured_total(op);
         // `calls` of the four argument sets; which ones rotates with the op index so that a reduced budget still spreads
         let all: Vec<usize> = (0..if nstruct > 0 { 4 } else { 2 }).collect();
